@@ -146,7 +146,9 @@ def elementwise(I, op, a, b, node):
     da = a.dtype if isinstance(a, Arr) else _scalar_dtype(a)
     db = b.dtype if isinstance(b, Arr) else _scalar_dtype(b)
     dt = join_dtype(da, db)
-    if isinstance(op, ast.Div) and dt in ("bool", "int", "int64"):
+    if isinstance(op, ast.Div) and (dt in ("bool", "int", "int64") or (dt or "").startswith("inherit")):
+        dt = "float"  # true division never yields an integer array
+    if isinstance(op, ast.Pow) and (dt or "").startswith("inherit") and isinstance(vb, Expr) and not (vb.as_const() is not None and vb.as_const().re.denominator == 1 and vb.as_const().re >= 0):
         dt = "float"
     meta = merge_meta(I, a, b, node)
     if "lvl0" in meta:
